@@ -41,6 +41,8 @@ def close(impl, want, tol):
 
 class C17(Prop):
     id = 'C17'
+    _leaves = None
+    _sc = None
     extracted = True      # arithmetic kernels regenerated from the current source (harness/extract.py, Extracted/Equiv*.lean)
     quick_cases = 1500
     thorough_cases = 30000
@@ -78,6 +80,7 @@ class C17(Prop):
         for a, b in [(1, 9), (1, 10), (1, 11), (1, 12), (2, 19), (2, 20), (2, 21), (11, 1), (10, 1), (21, 2), (30, 2)]:
             out.append({'op': 'tree', 'tree': {'l': [float(i) * 1.5 for i in range(a)], 'r': [100.0 + i for i in range(b)]}})
         out.append({'op': 'tree', 'tree': {'self': [1.0, 2.0, 4.0]}})
+        out.append({'op': 'tree', 'tree': {'l': [1.0, 2.0], 'r': {'self': [5.0, 7.0, 9.0]}}, 'via': 'rdd'})
         out.append({'op': 'tree', 'tree': {'l': [], 'r': {'self': []}}})
         out.append({'op': 'stats', 'parts': [[], [], []]})
         return out
@@ -106,7 +109,7 @@ class C17(Prop):
             xs = [self.gen_num(rng, style) for _ in range(rng.choice([0, 1, 2, 3, 5, 8, 20, 40]))]
             return {'op': 'stats', 'parts': random_layout(rng, xs, 6)}
         if r < .75:
-            return {'op': 'tree', 'tree': self.gen_tree(rng, style, 3)}
+            return dict({'op': 'tree', 'tree': self.gen_tree(rng, style, 3)}, **({'via': 'rdd'} if rng.random() < .4 else {}))
         n = rng.choice([0, 1, 2, 3, 5, 8, 20])
         if rng.random() < .3:      # correlated data
             xs = [(x, 2 * x + self.gen_num(rng, 'unit')) for x in (self.gen_num(rng, style) for _ in range(n))]
@@ -131,6 +134,11 @@ class C17(Prop):
     # ---- execution -----------------------------------------------------------------------------------
     def impl_tree(self, t):
         if isinstance(t, list):
+            if self._leaves is not None:
+                # the partial summary is the one a dataset hands out; the dataset is kept to be asked again afterwards
+                rdd = self._sc.parallelize(list(t), 1 + len(self._leaves) % 3)
+                self._leaves.append((rdd, list(t)))
+                return rdd.stats()
             return self.StatCounter(t)
         if 'self' in t:
             s = self.impl_tree(t['self'])
@@ -180,7 +188,19 @@ class C17(Prop):
                 req = {'p': 'C17', 'op': 'stats', 'parts': [[q(x) for x in p] for p in case['parts']]}
             else:
                 vals = self.tree_vals(case['tree'])
+                self._leaves = [] if case.get('via') == 'rdd' else None
+                self._sc = self.Context() if case.get('via') == 'rdd' else None
                 s = self.impl_tree(case['tree'])
+                for rdd, own in (self._leaves or []):
+                    # merging the summaries a dataset handed out must not change what the dataset itself reports
+                    again = rdd.stats()
+                    want_n, want_sum = len(own), math.fsum(own)
+                    if again.count() != want_n or rdd.count() != want_n or \
+                            abs(again.sum() - want_sum) > 1e-9 * max([1.0] + [abs(v) for v in own]) * max(1, want_n):
+                        return Mismatch('after its summary was merged with others, a dataset reports another count / sum than its '
+                                        'own elements have', {'count': again.count(), 'sum': again.sum()},
+                                        {'count': want_n, 'sum': want_sum}, 'C17:summary-of-dataset-changed', relation='spec')
+                self._leaves = None
                 got = {'n': s.count(), 'mean': s.mean(), 'sum': s.sum(), 'variance': s.variance(),
                        'sampleVariance': s.sampleVariance(), 'max': s.max() if vals else None,
                        'min': s.min() if vals else None, 'stdev': s.stdev(), 'sampleStdev': s.sampleStdev(), 'rdd': None}
